@@ -2,6 +2,8 @@ package rules
 
 import (
 	"fmt"
+	"go/ast"
+	"go/constant"
 	"go/token"
 	"go/types"
 	"sort"
@@ -50,6 +52,253 @@ func runC12(p *load.Program, r *core.Report) {
 	c12Release(p, r)
 	c12Ack(p, r)
 	c12Cut(p, r)
+	c12Envelope(p, r)
+}
+
+// c12Envelope: R7 — compression envelope agreement between send and the receive worker, and
+// between each Compress*/Decompress* pair.
+func c12Envelope(p *load.Program, r *core.Report) {
+	rule := "C12.R7 compression-envelope"
+	r.Floor(rule, 5)
+	sendF := p.Func("net/proto", "connection", "send")
+	recvF := p.Func("net/proto", "connection", "handleRecvQueue")
+	if sendF == nil || recvF == nil {
+		r.Unk(rule, "C12.R7|anchors", "", "", "send and the receive worker found", "not found")
+		return
+	}
+	// writer: compression type -> Compress function (by the dominating comparison of compression.Type)
+	algoOf := func(name, prefix string) string { return strings.TrimPrefix(name, prefix) }
+	typeConst := func(v ssa.Value) string {
+		if c, ok := v.(*ssa.Const); ok && c.Value != nil {
+			return strings.Trim(c.Value.ExactString(), "\"")
+		}
+		return ""
+	}
+	wmap := map[string]string{} // type string -> algo
+	var prealloc int64 = -1
+	eachInstr(sendF, func(in ssa.Instruction) {
+		c, ok := in.(*ssa.Call)
+		if !ok {
+			return
+		}
+		sf := staticCallee(c.Common())
+		if sf == nil || !strings.HasPrefix(sf.Name(), "Compress") {
+			return
+		}
+		if v, okc := constInt(c.Common().Args[1]); okc {
+			prealloc = v
+		}
+		algo := algoOf(sf.Name(), "Compress")
+		// dominating equality test of the type
+		found := ""
+		eachInstr(sendF, func(i2 ssa.Instruction) {
+			b, okb := i2.(*ssa.BinOp)
+			if !okb || b.Op != token.EQL {
+				return
+			}
+			tc := typeConst(b.Y)
+			if tc == "" {
+				return
+			}
+			t, _, _ := boolEdges(b)
+			if edgesDominate(t, in) {
+				found = tc
+			}
+		})
+		if found == "" {
+			// default arm: the type that is written into the envelope is assigned explicitly
+			eachInstr(sendF, func(i2 ssa.Instruction) {
+				if st, oks := i2.(*ssa.Store); oks && i2.Block() == in.Block() {
+					if tc := typeConst(st.Val); tc != "" {
+						found = tc
+					}
+				}
+			})
+		}
+		wmap[found] = algo
+	})
+	// the envelope byte 8 carries compression.Type.ID() of the (possibly reassigned) type
+	// reader: case <Type>.ID() -> Decompress function
+	rmap := map[string]string{}
+	var skip int64 = -1
+	pk := p.Pkg("net/proto")
+	for _, file := range pk.Syntax {
+		ast.Inspect(file, func(n ast.Node) bool {
+			cc, ok := n.(*ast.CaseClause)
+			if !ok || len(cc.List) != 1 {
+				return true
+			}
+			ce, ok := cc.List[0].(*ast.CallExpr)
+			if !ok {
+				return true
+			}
+			se, ok := ce.Fun.(*ast.SelectorExpr)
+			if !ok || se.Sel.Name != "ID" {
+				return true
+			}
+			tv, ok := pk.TypesInfo.Types[se.X]
+			if !ok || tv.Value == nil {
+				return true
+			}
+			tname := strings.Trim(tv.Value.ExactString(), "\"")
+			ast.Inspect(cc, func(m ast.Node) bool {
+				c2, ok := m.(*ast.CallExpr)
+				if !ok {
+					return true
+				}
+				fn := types.ExprString(c2.Fun)
+				if strings.HasPrefix(fn, "lib.Decompress") {
+					rmap[tname] = strings.TrimPrefix(fn, "lib.Decompress")
+				}
+				return true
+			})
+			return true
+		})
+	}
+	eachInstr(recvF, func(in ssa.Instruction) {
+		c, ok := in.(*ssa.Call)
+		if !ok {
+			return
+		}
+		if sf := staticCallee(c.Common()); sf != nil && strings.HasPrefix(sf.Name(), "Decompress") {
+			if v, okc := constInt(c.Common().Args[1]); okc {
+				skip = v
+			}
+		}
+	})
+	{
+		key := "C12.R7|type-table"
+		inst := "the compression type written into the envelope selects, at the receiver, the decompressor of the algorithm the sender used"
+		var probs []string
+		var ts []string
+		for t := range wmap {
+			ts = append(ts, t)
+		}
+		sort.Strings(ts)
+		for _, t := range ts {
+			if rmap[t] == "" {
+				probs = append(probs, fmt.Sprintf("type %q is compressed with %s but the receiver has no arm for it", t, wmap[t]))
+			} else if rmap[t] != wmap[t] {
+				probs = append(probs, fmt.Sprintf("type %q is compressed with %s and decompressed with %s", t, wmap[t], rmap[t]))
+			}
+		}
+		if len(wmap) < 3 {
+			probs = append(probs, fmt.Sprintf("only %d compression arms found in send", len(wmap)))
+		}
+		if len(probs) > 0 {
+			r.Bad(rule, key, fname(sendF), p.Pos(sendF.Pos()), inst, strings.Join(probs, "; "))
+		} else {
+			r.OK(rule, key, fname(sendF), p.Pos(sendF.Pos()), inst, fmt.Sprintf("writer %v, reader %v", wmap, rmap))
+		}
+		key2 := "C12.R7|header-size"
+		inst2 := "the envelope header reserved by the sender equals the number of bytes the receiver skips"
+		if prealloc >= 0 && prealloc == skip {
+			r.OK(rule, key2, fname(sendF), p.Pos(sendF.Pos()), inst2, fmt.Sprintf("%d bytes", skip))
+		} else {
+			r.Bad(rule, key2, fname(sendF), p.Pos(sendF.Pos()), inst2, fmt.Sprintf("sender reserves %d bytes, receiver skips %d: the unpacked length and the stream are read from the wrong offset", prealloc, skip))
+		}
+	}
+	// ID() is injective and non-zero for the three types
+	if fd, _ := p.FuncDecl("gen", "CompressionType", "ID"); fd != nil {
+		gpk := p.Pkg("gen")
+		ids := map[string]int64{}
+		ast.Inspect(fd.Body, func(n ast.Node) bool {
+			cc, ok := n.(*ast.CaseClause)
+			if !ok || len(cc.List) != 1 {
+				return true
+			}
+			for _, s := range cc.Body {
+				if rs, ok := s.(*ast.ReturnStmt); ok && len(rs.Results) == 1 {
+					if tv, ok := gpk.TypesInfo.Types[rs.Results[0]]; ok && tv.Value != nil {
+						v, _ := constant.Int64Val(tv.Value)
+						ids[types.ExprString(cc.List[0])] = v
+					}
+				}
+			}
+			return true
+		})
+		seen := map[int64]string{}
+		var probs []string
+		for n, v := range ids {
+			if v == 0 {
+				probs = append(probs, n+" has id 0 (the 'unknown' value)")
+			}
+			if o, dup := seen[v]; dup {
+				probs = append(probs, n+" and "+o+" share id "+fmt.Sprint(v))
+			}
+			seen[v] = n
+		}
+		key := "C12.R7|type-ids"
+		if len(probs) > 0 || len(ids) < 3 {
+			sort.Strings(probs)
+			r.Bad(rule, key, "gen.CompressionType.ID", p.Pos(fd.Pos()), "compression type ids are distinct and non-zero", strings.Join(probs, "; "))
+		} else {
+			r.OK(rule, key, "gen.CompressionType.ID", p.Pos(fd.Pos()), "compression type ids are distinct and non-zero", fmt.Sprint(ids))
+		}
+	}
+	// pairs in lib
+	for _, algo := range []string{"LZW", "ZLIB", "GZIP"} {
+		cf := p.Func("lib", "", "Compress"+algo)
+		df := p.Func("lib", "", "Decompress"+algo)
+		key := "C12.R7|lib|" + algo
+		inst := "Compress" + algo + " and Decompress" + algo + " use the same stream format, and the unpacked length sits in the same 4 bytes"
+		if cf == nil || df == nil {
+			r.Unk(rule, key, "", "", inst, "pair not found")
+			continue
+		}
+		ctor := func(f *ssa.Function, prefix string) (pkg string, args []int64) {
+			eachInstr(f, func(in ssa.Instruction) {
+				c, ok := in.(*ssa.Call)
+				if !ok {
+					return
+				}
+				sf := staticCallee(c.Common())
+				if sf == nil || sf.Pkg == nil || !strings.HasPrefix(sf.Pkg.Pkg.Path(), "compress/") || !strings.HasPrefix(sf.Name(), prefix) {
+					return
+				}
+				pkg = sf.Pkg.Pkg.Path()
+				for _, a := range c.Common().Args {
+					if v, ok := constInt(a); ok {
+						args = append(args, v)
+					}
+				}
+			})
+			return
+		}
+		cp, ca := ctor(cf, "NewWriter")
+		dp, da := ctor(df, "NewReader")
+		var probs []string
+		if cp == "" || dp == "" || cp != dp {
+			probs = append(probs, fmt.Sprintf("writer from %q, reader from %q", cp, dp))
+		}
+		if cp == "compress/lzw" && fmt.Sprint(ca) != fmt.Sprint(da) {
+			probs = append(probs, fmt.Sprintf("lzw parameters differ: writer %v, reader %v", ca, da))
+		}
+		// length field: PutUint32 at [preallocate:] / Uint32 of source[:4] after skipping; Allocate(preallocate+4); reader from source[4:]
+		put, get := false, false
+		eachInstr(cf, func(in ssa.Instruction) {
+			if c, ok := in.(*ssa.Call); ok {
+				if sf := staticCallee(c.Common()); sf != nil && sf.Name() == "PutUint32" {
+					put = true
+				}
+			}
+		})
+		eachInstr(df, func(in ssa.Instruction) {
+			if c, ok := in.(*ssa.Call); ok {
+				if sf := staticCallee(c.Common()); sf != nil && sf.Name() == "Uint32" {
+					get = true
+				}
+			}
+		})
+		if !put || !get {
+			probs = append(probs, "the 4-byte unpacked length is not written/read symmetrically")
+		}
+		if len(probs) > 0 {
+			r.Bad(rule, key, fname(cf), p.Pos(cf.Pos()), inst, strings.Join(probs, "; "))
+		} else {
+			r.OK(rule, key, fname(cf), p.Pos(cf.Pos()), inst, cp+fmt.Sprint(ca))
+		}
+	}
 }
 
 // c12Layout emits the layout agreement (rule1) and ownership agreement (rule2) obligations.
